@@ -72,7 +72,7 @@ impl OutputSink for Sink {
 pub fn run_case(line: &str) {
     let m = kv(line);
     let id = line.split(' ').nth(1).unwrap();
-    println!("C {id}");
+    outln!("C {id}");
     let log = Rc::new(RefCell::new(Vec::<String>::new()));
     let ctl = Ctl { counter: 0, seed: geti(&m, "seed", 0), fail_at: m.get("fail").and_then(|v| v.parse().ok()), remove: getb(&m, "remove"),
         bail: hexopt(&m, "bail"), endt: hexopt(&m, "endt"), tokens: 0, log: log.clone() };
@@ -88,7 +88,7 @@ pub fn run_case(line: &str) {
         graceful_bail_out_on_memory_limit_exceeded: getb(&m, "bm"),
         graceful_bail_out_on_content_handler_error: getb(&m, "bh"),
     })));
-    let mut ts = match built { Ok(t) => t, Err(_) => { println!("R new panic:construct"); println!("."); return; } };
+    let mut ts = match built { Ok(t) => t, Err(_) => { outln!("R new panic:construct"); outln!("."); return; } };
     let ops = parse_ops(m.get("ops").map(|s| s.as_str()).unwrap_or("E"));
     let mut poisoned = false;
     let mut ended = false;
@@ -102,9 +102,9 @@ pub fn run_case(line: &str) {
                 Err(_) => { poisoned = true; "panic:impl".to_string() }
             }
         };
-        for l in log.borrow_mut().drain(..) { println!("{l}"); }
-        println!("R {k} {res}");
-        println!("U {k} {}", limiter.verif_usage());
+        for l in log.borrow_mut().drain(..) { outln!("{l}"); }
+        outln!("R {k} {res}");
+        outln!("U {k} {}", limiter.verif_usage());
     }
-    println!(".");
+    outln!(".");
 }
